@@ -72,6 +72,14 @@ def main():
             patch = os.path.join(VERIF, "seeded", sid, "patch.diff")
             r = sh(f"git -C {wt} apply {patch}")
             if r.returncode != 0:
+                # the tree has moved on since the patch was taken: fall back to a three-way merge on the recorded blobs
+                sh(f"git -C {wt} reset -q --hard && git -C {wt} clean -fdq")
+                r = sh(f"git -C {wt} apply --3way {patch}")
+                if r.returncode != 0:
+                    sh(f"git -C {wt} reset -q --hard && git -C {wt} clean -fdq")
+                else:
+                    sh(f"git -C {wt} reset -q")
+            if r.returncode != 0:
                 matrix[sid] = {"error": "patch does not apply: " + r.stdout[-200:]}
                 print(sid, "PATCH DOES NOT APPLY")
                 continue
